@@ -437,6 +437,18 @@ Definition ctx_params (H : heap) (x : ctx) : res (list param) :=
   if c_tsr x then match c_tsrp x with Some s => Ok (slice_read H s) | None => Panic end
   else match c_params x with Some s => Ok (slice_read H s) | None => Panic end.
 
+(* c.Param(name) (context.go:222-239): the loop over one Params slice ... *)
+Fixpoint find_param (ps : list param) (name : bytes) : bytes :=
+  match ps with
+  | [] => []
+  | (k, v) :: r => if bytes_eqb k name then v else find_param r name
+  end.
+(* ... which is *c.tsrParams when c.tsr, and then `return ""` WITHOUT looking
+   at *c.params; else *c.params.  Dereferencing a nil *Params panics. *)
+Definition ctx_param (H : heap) (x : ctx) (name : bytes) : res bytes :=
+  if c_tsr x then match c_tsrp x with Some s => Ok (find_param (slice_read H s) name) | None => Panic end
+  else match c_params x with Some s => Ok (find_param (slice_read H s) name) | None => Panic end.
+
 Definition observe (H : heap) (c : addr) : res view :=
   let x := ctxs H c in
   do ps <- ctx_params H x;
